@@ -74,7 +74,28 @@ def target(fam, n, tradok, variant):
             # a path as an earlier operation returned it: with host
             src = src.copy()
             src.host = "srv.example.com:5989"
-        return (src,), {}
+        # the filter arguments of the association operations (the same ones
+        # go to the traditional operation that defines the expected result)
+        kw = {}
+        v = variant
+        role = [None, None, "left", "a", "b", "right", "A"][v % 7]
+        if role:
+            kw["Role"] = role
+        if fam in (3, 4):
+            rc = [None, "VAssoc", "VTern", None, "vassocsub"][v % 5]
+            if rc:
+                kw["ResultClass"] = rc
+        else:
+            ac = [None, "VAssoc", None, "VTern"][v % 4]
+            if ac:
+                kw["AssocClass"] = ac
+            rr = [None, None, "right", "b", "x"][(v // 2) % 5]
+            if rr:
+                kw["ResultRole"] = rr
+            rc = [None, "VX", None, "VA"][(v // 3) % 4]
+            if rc:
+                kw["ResultClass"] = rc
+        return (src,), kw
     return ("WQL", "SELECT * FROM VN3"), {}
 
 
@@ -218,7 +239,7 @@ def run_history(rng, upo, ncalls, variant, script=None):
             conn.disable_pull_operations = disabled
         srv = not disabled
         fam = rng.choice(list(ITER))
-        variant = rng.randint(0, 9)
+        variant = rng.randint(0, 419)
         c = dict(fam=fam, fq=rng.random() < 0.25, coe=rng.random() < 0.15,
                  moc=rng.choice(["ok"] * 9 + ["zero", "neg", "none",
                                               "badtype"]),
@@ -296,7 +317,7 @@ def run_overlap(rng, upo):
     def start():
         fam = rng.choice([1, 2, 3, 4, 5, 6])
         n = rng.choice([2, 3, 4, 5, 7])
-        variant = rng.randint(0, 9)
+        variant = rng.randint(0, 419)
         args, kw = target(fam, n, True, variant)
         try:
             trad = getattr(conn, TRAD[fam])(*args, **kw)
